@@ -261,7 +261,13 @@ def _work_in_subprocess(arg, seed):
         if p.returncode != 0 or not os.path.exists(fout):
             return {"index": index, "error": f"shard subprocess (PYTHONHASHSEED={seed}) failed:\n{p.stderr[-3000:]}", "shard": shard}
         with open(fout, "rb") as f:
-            return pickle.load(f)
+            out = pickle.load(f)
+        # state / case digests are Python hashes, i.e. seed-dependent: a shard run under another seed is not allowed
+        # to inflate the exact distinct counts (its transitions and evaluations are counted, its digests dropped)
+        for k in ("states", "nontrivial", "outcomes"):
+            if k in out:
+                out[k] = b""
+        return out
     finally:
         import shutil
         shutil.rmtree(d, ignore_errors=True)
@@ -371,7 +377,10 @@ def run_check(check_id, tier, seed):
             else:
                 results[r["index"]] = r
     else:
-        with ctx.Pool(nproc, maxtasksperchild=getattr(mod, "MAXTASKS", None)) as pool:
+        # one forked process per shard: whatever a shard leaves behind in the interpreter (module-level caches,
+        # mutated defaults) cannot reach another shard, so a shard's verdict depends on the shard alone and the
+        # shard-level re-execution of a history-dependent violation is exact
+        with ctx.Pool(nproc, maxtasksperchild=getattr(mod, "MAXTASKS", 1)) as pool:
             it = pool.imap_unordered(_work, work, chunksize=1)
             for r in it:
                 if "error" in r:
